@@ -1,6 +1,6 @@
 from vfw import Unit, Ob
 UNITS = []; OBS = []
-GEOMS = [(1, 16, 1, 'quick'), (1, 16, 3, 'quick'), (1, 16, 4, 'quick'), (1, 10, 4, 'quick'), (1, 20, 16, 'quick'), (1, 16, 2, 'thorough'), (1, 8, 4, 'thorough'), (1, 64, 3, 'thorough')]
+GEOMS = [(1, 15, 4, 'quick'), (1, 51, 2, 'thorough'), (1, 16, 1, 'quick'), (1, 16, 3, 'quick'), (1, 16, 4, 'quick'), (1, 10, 4, 'quick'), (1, 20, 16, 'quick'), (1, 16, 2, 'thorough'), (1, 8, 4, 'thorough'), (1, 64, 3, 'thorough')]
 for sid, pc, ipc, tier in GEOMS:
     un = 'pool_s%d_c%d_i%d' % (sid, pc, ipc)
     UNITS.append(Unit(un, 'wrappers/pool.cpp', defs=['ARDUINOJSON_SLOT_ID_SIZE=%d' % sid, 'ARDUINOJSON_POOL_CAPACITY=%d' % pc, 'ARDUINOJSON_INITIAL_POOL_COUNT=%d' % ipc,
